@@ -6,6 +6,12 @@ category {literal, constant, parameter, fixed input, free input, time, state, de
 a for-loop (an array of delays), one or two delays per model, under a set of compiler options.  Every model
 goes through the real `api.transfer_model` on a scratch model folder (cache off).
 
+A tenth category, 'delayed signal': the duration is (or contains) a delay() call itself -- `delay(w, delay(s, p))` --
+or an algebraic variable defined by one (`tau = delay(s, p); y = delay(w, tau)`, also under the options that
+eliminate tau: detect_aliases, eliminable_variable_expression).  The delayed value of a state / algebraic variable /
+free input / time is a time-varying, non-fixed signal: such a model must be rejected.  For the delayed value of a
+constant / parameter / fixed-input expression the statement gives no verdict (see DELAYED below): either outcome.
+
 Reference (this file): the category of a symbol follows from our own declarations; a model must be accepted
 iff every free symbol of every duration is a literal, constant, parameter or fixed input.  For accepted models
 each source delay is *linked* to the delay state it defines (by perturbing the delay inputs and the target
@@ -38,17 +44,53 @@ SYMS = {
     "state": ["s", "s2"],
     "der-state": ["der(s)", "der(s2)"],
     "algebraic": ["w", "x"],
+    # a delayed signal "delay(<expression>|<duration>)" as (part of) a duration, see DELAYED
+    "delayed-signal": None,
 }
+# Delayed signals as duration operands, "delay(E|D)" = delay(E, D) with E a symbol of the alphabet above or a key of
+# EXPRS and D again a duration.  pymoca turns every delay() call into an extra input `_pymoca_delay_N` that is not
+# fixed, so in the *model* such a duration depends on a non-fixed input; in the *source* it depends on whatever E
+# depends on, some time ago.  Both readings agree when E mentions a state, a derivative, an algebraic variable, a
+# free input or time: reject.  They disagree when E is built from constants, parameters and fixed inputs only (the
+# unchanged code rejects, the statement's "depend only on constants, parameters and fixed inputs" would accept):
+# the statement does not foresee a delay() call inside a duration, so for those ("delayed-parameter" etc., the
+# EITHER class) no verdict is demanded.  The inner duration D is a delay duration of the model in its own right.
+DELAYED = [
+    "delay(s|p)",  # state
+    "delay(x|1.5)",  # algebraic
+    "delay(u|uf)",  # free input
+    "delay(w|c)",
+    "delay(uv[2]|p)",  # element of a free input array
+    "delay(xv[2]|pv[2])",
+    "delay(2*x+p|p)",  # mixed expression
+    "delay(der(s)|p)",
+    "delay(time|p)",
+    "delay(s2|uf+p)",
+    "delay(x|delay(s|p))",  # three levels
+    "delay(p|delay(x|p))",  # an EITHER-class expression delayed by a delayed state
+    # EITHER class
+    "delay(p|1.5)",
+    "delay(2*p+c|p)",
+    "delay(c|p)",
+    "delay(uf|p)",
+    "delay(pv[2]|c)",
+    # EITHER-class expression, but the inner duration is disallowed
+    "delay(p|s)",
+    "delay(2*p+c|time)",
+    "delay(p|u)",
+]
+SYMS["delayed-signal"] = DELAYED
 CATS = list(SYMS)
 ALLOWED = {"literal", "constant", "parameter", "fixed-input"}
+TAU = "tau"  # algebraic variable of the via-variable models:  tau = delay(E, D);  y = delay(expr, tau)
 LOOP = (2, 3)  # for i in 2:3 -- a proper sub-range of the arrays of size 3, so element offsets matter
 P_DECLARED = 2.75
 PV_DECLARED = (1.5, 2.5, 3.5)
 
 
-def declarations():
+def declarations(via=False):
     t, f = ("bool", True), ("bool", False)
-    return [
+    return ([Decl(TAU)] if via else []) + [
         Decl("x"),
         Decl("xv", dims=(3,)),
         Decl("y1"),
@@ -81,7 +123,29 @@ def base_equations():
     ]
 
 
+EXPRS = {
+    "2*x+p": B("+", B("*", N(2), V("x")), V("p")),
+    "2*p+c": B("+", B("*", N(2), V("p")), V("c")),
+    "uf+p": B("+", V("uf"), V("p")),
+}
+
+
+def split_delayed(s):
+    """'delay(E|D)' -> (E, D), splitting at the top-level bar."""
+    body, depth = s[6:-1], 0
+    for k, ch in enumerate(body):
+        depth += (ch == "(") - (ch == ")")
+        if ch == "|" and depth == 0:
+            return body[:k], body[k + 1 :]
+    raise ValueError(s)
+
+
 def sym_node(s):
+    if s.startswith("delay("):
+        e, d = split_delayed(s)
+        return ("call", "delay", (sym_node(e), sym_node(d)))
+    if s in EXPRS:
+        return EXPRS[s]
     if s == "time":
         return V("time")
     if s.startswith("der("):
@@ -110,6 +174,11 @@ def durations(tier):
                 out.append((a, op, b))
     for op in "+*":
         out.append(("q", op, "p2"))
+        # an EITHER-class delayed signal next to an allowed symbol (no verdict) and next to a disallowed one (reject)
+        out.append(("delay(p|1.5)", op, "p"))
+        out.append(("uf", op, "delay(2*p+c|p)"))
+        out.append(("delay(p|1.5)", op, "u"))
+        out.append(("s", op, "delay(c|p)"))
     if tier == "thorough":  # the same pairs over the *last* symbol of each category
         for c1 in CATS:
             for c2 in CATS:
@@ -121,6 +190,8 @@ def durations(tier):
 
 FIRST = [SYMS[c][0] for c in CATS]
 ALL_SINGLES = [s for c in CATS for s in SYMS[c]]
+# single-symbol durations of the thorough two-delay models: everything but the delayed signals, and four of those
+TWO_DELAY_SINGLES = [s for c in CATS if c != "delayed-signal" for s in SYMS[c]] + ["delay(s|p)", "delay(x|1.5)", "delay(p|1.5)", "delay(p|u)"]
 
 EKINDS_OUT = ["x", "affine", "elem", "vec"]
 EKINDS_LOOP = ["x", "affine", "elem"]
@@ -155,12 +226,26 @@ OPTIONS = {
     "ev+mx+aliases": {"expand_vectors": True, "expand_mx": True, "detect_aliases": True},
     "mx": {"expand_mx": True},
     "repl-par-expr": {"replace_parameter_expressions": True},
+    # via-variable models only: tau is eliminated by substitution (needs expand_mx)
+    "elim": {"eliminable_variable_expression": TAU, "expand_mx": True},
+    "ev+elim": {"eliminable_variable_expression": TAU, "expand_mx": True, "expand_vectors": True},
+    "elim+aliases": {"eliminable_variable_expression": TAU, "expand_mx": True, "detect_aliases": True},
 }
+ELIM_OPTS = ["elim", "ev+elim", "elim+aliases"]
 # cache=True is deliberately not an option set here: cached models are C19's subject, and this header cannot be cached for
 # reasons that have nothing to do with delay validation (see out/notes/C22.md (e)).
 QUICK_OPTS = ["default", "ev", "ev+mx", "aliases", "repl-const", "repl-par", "affine", "serial"]
 QUICK_OPTS_2 = ["default", "ev", "aliases", "serial"]
-THOROUGH_OPTS = list(OPTIONS)
+THOROUGH_OPTS = [n for n in OPTIONS if n not in ELIM_OPTS]
+
+
+def eliminates_tau(optname):
+    o = OPTIONS[optname]
+    return bool(o.get("detect_aliases") or o.get("eliminable_variable_expression"))
+
+
+VIA_DURS = [(TAU,), (TAU, "+", "p"), ("uf", "*", TAU)]
+VIA_FORMS = ["eq", "after", "plus"]  # tau = D before the delay that uses it / after it / tau = D + p
 
 
 def specs(tier):
@@ -182,7 +267,7 @@ def specs(tier):
         dpairs = [((a,), (b,)) for a in FIRST for b in FIRST]
     else:
         kpairs = [(a, b) for a in kinds for b in kinds]
-        dpairs = [((a,), (b,)) for a in ALL_SINGLES for b in ALL_SINGLES]
+        dpairs = [((a,), (b,)) for a in TWO_DELAY_SINGLES for b in TWO_DELAY_SINGLES]
     for p1, p2, lay in layouts:
         for k1, k2 in kpairs:
             for d1, d2 in dpairs:
@@ -196,6 +281,16 @@ def specs(tier):
                     for other in ("p", "u"):
                         out.append(({"delays": [[p1, k1, list(d)], [p2, k2, [other]]], "layout": lay}, _opts_for(QUICK_OPTS, "loop" in (p1, p2))))
                         out.append(({"delays": [[p1, k1, [other]], [p2, k2, list(d)]], "layout": lay}, _opts_for(QUICK_OPTS, "loop" in (p1, p2))))
+    # via-variable models: tau = <delayed signal>; one delay whose duration mentions tau
+    # (quick: three placements; all forms and durations for four of the delayed signals, 'tau = D; delay(.., tau)' for the rest)
+    vplaces = [("out", "x"), ("out", "vec"), ("loop", "elem")] if tier == "quick" else singles
+    vopts = (QUICK_OPTS if tier == "quick" else THOROUGH_OPTS) + ELIM_OPTS
+    for tok in DELAYED:
+        full = tier != "quick" or tok in ("delay(s|p)", "delay(x|1.5)", "delay(u|uf)", "delay(p|1.5)")
+        for form in VIA_FORMS if full else VIA_FORMS[:1]:
+            for place, ek in vplaces:
+                for d in VIA_DURS if full else VIA_DURS[:1]:
+                    out.append(({"delays": [[place, ek, list(d)]], "layout": None, "via": [tok, form]}, _opts_for(vopts, place == "loop")))
     return out
 
 
@@ -212,6 +307,13 @@ def build(spec):
     targets = []
     loops = []  # bodies of the for-loops, in source order
     delays = spec["delays"]
+    via = spec.get("via")
+    via_eq = None
+    if via:
+        rhs = sym_node(via[0])
+        via_eq = ("eq", V(TAU), B("+", rhs, V("p")) if via[1] == "plus" else rhs)
+        if via[1] != "after":
+            eqs.append(via_eq)
     for n, (place, ek, dur) in enumerate(delays):
         e, d = expr_node(place, ek), dur_node(tuple(dur))
         kind = "%s-%s" % (place, ek)
@@ -237,7 +339,9 @@ def build(spec):
                 eqs.append(lp)
             for i in range(LOOP[0], LOOP[1] + 1):
                 targets.append((tv, i, e, d, {"i": i}, kind))
-    return Model("M", declarations(), eqs), targets
+    if via and via[1] == "after":
+        eqs.append(via_eq)
+    return Model("M", declarations(via=bool(via)), eqs), targets
 
 
 def categories(model):
@@ -281,19 +385,59 @@ def free_categories(n, cat, out=None):
     elif k == "bin":
         free_categories(n[2], cat, out)
         free_categories(n[3], cat, out)
+    elif k == "call" and n[1] == "delay":
+        # a delayed signal: 'delayed-<category>' for what is delayed; its own duration is a duration of the model
+        inner = free_categories(n[2][0], cat)
+        out.update("delayed-" + c for c in (inner or {"literal"}))
+        free_categories(n[2][1], cat, out)
     elif k != "num":
         raise ValueError(n)
     return out
 
 
-def verdict(spec):
-    """('accept' | 'reject', sorted disallowed categories) by the reference."""
+def klass(c, eliminated=False):
+    """'ok' | 'either' | 'bad' for one category label of a duration."""
+    if c in ALLOWED:
+        return "ok"
+    if c.startswith("algebraic="):
+        # tau, an algebraic variable (reject).  Where an option replaces tau by its defining expression the
+        # duration is that expression's business ('aliases that move a symbol's category': no verdict there).
+        ks = {klass(x) for x in c.split("=", 1)[1].split("&")}
+        return "either" if eliminated and "bad" not in ks else "bad"
+    if c.startswith("delayed-"):
+        base = c
+        while base.startswith("delayed-"):
+            base = base[len("delayed-") :]
+        return "either" if base in ALLOWED else "bad"
+    return "bad"
+
+
+def duration_categories(spec):
+    """All category labels of all delay durations of the model (incl. the durations of delays nested in a duration
+    and of the delay that defines tau)."""
     model, targets = build(spec)
     cat = categories(model)
-    bad = set()
+    via = spec.get("via")
+    labels = set()
+    if via:
+        e, d = split_delayed(via[0])
+        labels |= free_categories(sym_node(d), cat)  # the defining delay's own duration
+        defined_by = {"delayed-" + c for c in free_categories(sym_node(e), cat)} | ({"parameter"} if via[1] == "plus" else set())
+        cat[TAU] = "algebraic=" + "&".join(sorted(defined_by))
     for _, _, _, d, _, _ in targets:
-        bad |= free_categories(d, cat) - ALLOWED
-    return ("reject" if bad else "accept"), sorted(bad)
+        labels |= free_categories(d, cat)
+    return labels
+
+
+def verdict(spec, optname="default"):
+    """('accept' | 'reject' | 'either', sorted disallowed / undecided categories) by the reference."""
+    labels = duration_categories(spec)
+    elim = eliminates_tau(optname)
+    bad = sorted(c for c in labels if klass(c, elim) == "bad")
+    if bad:
+        return "reject", bad
+    either = sorted(c for c in labels if klass(c, elim) == "either")
+    return ("either", either) if either else ("accept", [])
 
 
 def delay_kind(delay):
@@ -526,7 +670,6 @@ def check(job):
     spec, optnames, seed = job
     model, targets = build(spec)
     text = model.text()
-    want, bad = verdict(spec)
     folder = common.new_scratch("c22")
     with open(os.path.join(folder, "M.mo"), "w") as f:
         f.write(text)
@@ -534,7 +677,8 @@ def check(job):
     try:
         for optname in optnames:
             case = {"spec": spec, "opt": optname, "text": text}
-            r = {"opt": optname, "viol": [], "outcome": None, "exc": None}
+            want, bad = verdict(spec, optname)
+            r = {"opt": optname, "viol": [], "outcome": None, "exc": None, "want": want}
             try:
                 m = run_model(folder, optname)
                 err = None
@@ -549,11 +693,13 @@ def check(job):
                 r["outcome"] = "accepted"
                 if want == "reject":
                     r["viol"].append(("disallowed-duration-accepted:%s" % "+".join(bad), "a delay duration depends on %s, but transfer_model(%s) accepts the model (delay_arguments %r)\n%s" % (", ".join(bad), OPTIONS[optname], [str(a.duration) for a in m.delay_arguments], text), case))
-                else:
+                elif want == "accept":
                     r["viol"] += examine(m, spec, targets, optname, seed, text)
+                # want == "either" (the delayed value of a constant / parameter / fixed-input expression): no demand
             results.append(r)
     finally:
         shutil.rmtree(folder, ignore_errors=True)
+    want, bad = verdict(spec)
     return {"want": want, "bad": bad, "text": text, "results": results}
 
 
@@ -577,7 +723,8 @@ def run(ctx):
             for o in r["results"]:
                 if o["exc"] and r["want"] == "accept":
                     single_fail[(delay_kind(s["delays"][0]), tuple(s["delays"][0][2]), o["opt"])] = o["exc"]
-    stats = {"accept": 0, "reject": 0}
+    stats = {"accept": 0, "reject": 0, "either": 0}
+    delayed_models, via_models = 0, 0
     outcomes = {}
     per_opt = {}
     runs = 0
@@ -587,12 +734,14 @@ def run(ctx):
         if nontrivial(s):
             nontriv.add(r["text"])
         stats[r["want"]] += 1
+        via_models += bool(s.get("via"))
+        delayed_models += bool(s.get("via")) or any(t.startswith("delay(") for d in s["delays"] for t in d[2][::2])
         if r["want"] == "reject" and any(set(free_sym_cats(d[2])) & ALLOWED for d in s["delays"]):
             mixed += 1
         default_ok = any(o["opt"] == "default" and not o["exc"] for o in r["results"])
         for o in r["results"]:
             runs += 1
-            key = "%s/%s" % (r["want"], o["outcome"])
+            key = "%s/%s" % (o["want"], o["outcome"])
             outcomes[key] = outcomes.get(key, 0) + 1
             per_opt[o["opt"]] = per_opt.get(o["opt"], 0) + 1
             for v in o["viol"]:
@@ -623,6 +772,9 @@ def run(ctx):
             "distinct_nontrivial": len(nontriv),
             "reference_accept": stats["accept"],
             "reference_reject": stats["reject"],
+            "reference_no_verdict": stats["either"],
+            "models_with_a_delayed_signal_in_a_duration": delayed_models,
+            "of_which_via_an_algebraic_variable": via_models,
             "reject_with_allowed_symbols_mixed_in": mixed,
             "outcomes_by_reference_verdict": outcomes,
             "runs_per_option_set": per_opt,
@@ -637,19 +789,30 @@ def run(ctx):
             "expand_vectors (+expand_mx), detect_aliases, replace_constant_*, replace_parameter_*, reduce_affine_expression, unroll_loops=False "
             "(thorough: their combinations, expand_mx alone, replace_parameter_expressions alone). Each (model, option set) "
             "is one transfer_model call on a scratch folder. Non-trivial = some duration mentions a declared symbol or time, so the verdict "
-            "hinges on its category (literal-only durations are the trivial rest)."
+            "hinges on its category (literal-only durations are the trivial rest). Tenth category 'delayed signal': %d durations delay(E, D) "
+            "used like the other symbols (alone, in the category pairs, in the two-delay models%s), E over state / algebraic / free input (scalar and "
+            "array element) / der(state) / time / a mixed expression / constant, parameter, fixed-input expressions, D over literal, constant, "
+            "parameter, fixed input, a sum, another delayed signal, and disallowed symbols; via-variable models 'tau = delay(E, D)' (before or after "
+            "its use, or tau = delay(E, D) + p) with the duration tau, tau + p, uf * tau, additionally under eliminable_variable_expression=tau "
+            "(+expand_vectors, +detect_aliases). Reference: a delayed signal whose E mentions a state, derivative, algebraic variable, free input or "
+            "time must be rejected; D is judged as a duration itself; tau is an algebraic variable (reject); no verdict is demanded when E is built "
+            "from constants, parameters and fixed inputs only (and, for tau, the option set replaces tau by its definition)."
             % (
                 len(ALL_SINGLES),
                 ", xv[i-1]" if ctx.tier == "thorough" else "",
                 "first symbol of each category" if ctx.tier == "quick" else "all %d symbols" % len(ALL_SINGLES),
                 "; plus every two-symbol duration next to p / u in either position" if ctx.tier == "thorough" else "",
+                len(DELAYED),
+                ": the first" if ctx.tier == "quick" else ": four",
             ),
         }
     )
     ctx.assumptions.append(
         "durations are loop-invariant scalars (pv[i] / the loop index as a duration is outside the alphabet); any exception counts as a "
         "rejection of a should-reject model, ValueError is the documented one (counted separately); values are compared on %d grid points "
-        "consistent with the model's alias equations; transfer_model parses through pymoca's default parse cache (worker-private folder)" % NPOINTS
+        "consistent with the model's alias equations; the statement gives no verdict for a duration that is the delayed value of a "
+        "constant / parameter / fixed-input expression (source reading: allowed; model reading: the delay state is a non-fixed input), such "
+        "models are run but not judged; a variable attribute fixed=true on tau is outside the alphabet; transfer_model parses through pymoca's default parse cache (worker-private folder)" % NPOINTS
     )
 
 
@@ -659,7 +822,7 @@ _BASE_CAT = None
 def free_sym_cats(dur):
     global _BASE_CAT
     if _BASE_CAT is None:
-        _BASE_CAT = categories(Model("M", declarations(), base_equations()))
+        _BASE_CAT = categories(Model("M", declarations(via=True), base_equations()))
     cat = _BASE_CAT
     return sorted(free_categories(dur_node(tuple(dur)), cat) | ({"literal"} if any(s[0].isdigit() for s in dur[::2]) else set()))
 
@@ -672,7 +835,7 @@ def replay(case):
         for v in o["viol"]:
             bad.append(v[-2])
     print(r["text"])
-    print("options:", OPTIONS[optname], "reference:", r["want"], r["bad"], "outcome:", [o["outcome"] for o in r["results"]])
+    print("options:", OPTIONS[optname], "reference:", verdict(spec, optname), "outcome:", [o["outcome"] for o in r["results"]])
     for b in bad:
         print("  " + b.split("\n")[0])
     return not bad
